@@ -115,6 +115,7 @@ def judge_history(case, out):
     def st(s):
         return tuple(int(x) for x in s.split("|")[1].split(","))
     errs = sp.check_state(st(steps[0]))
+    armed = False
     for op, so in zip(ops, steps[1:]):
         res = so.split("|")[0].split(",")
         a = op.split(":")
@@ -203,11 +204,13 @@ def judge_history(case, out):
                     e.append("%s text %s, spec %r" % (a[0], res[1][:40], exp[:20]))
             if a[0] != "pl" and n == k:
                 sp.fifo = sp.fifo[k:]
+        elif a[0] == "RF":
+            armed = True          # an allocation fault armed: no effect on the contents; growth is no longer demanded
         elif a[0] == "o":
             sp.mode = int(a[1])
         elif a[0] == "fl":
             sp.fifo = b""
-        e += sp.check_state(st(so), need)
+        e += sp.check_state(st(so), None if armed else need)
         if e:
             errs += ["after %s: %s" % (op[:40], x) for x in e]
             break
@@ -310,6 +313,41 @@ def run(ctx):
                 break
         if len(samples) < 2 and len(c) < 200 and len(c.split(" ")) > 6:
             samples.append({"history": c, "impl": i})
+    # ---- growth steps that run out of memory: the k-th realloc fails once (implementation and the FIFO specification only; the
+    #      model has no allocator).  The buffer keeps its size, nothing is lost or invented, no byte is stored outside it (ASan)
+    rf = ctx.rng("alloc-faults")
+    fcases = []
+    for _ in range(300 if quick else 6000):
+        mn, mx = rf.choice([(1, 40), (8, 3000), (64, 131072), (5, 17), (64, 1999)])
+        ops = []
+        for _ in range(rf.range(2, 9)):
+            k = rf.weighted([("w", 6), ("f", 3), ("r", 3), ("RF", 3), ("o", 1), ("rl", 1)])      # cbuf_write_line (never called by pdsh) retries a failed growth step on its own terms and is left out here
+            if k == "w":
+                ops.append("w:" + hexs(gen_bytes(rf, rf.choice([1, 30, 70, 100, 990, 1001, 2500]))))
+            elif k == "wl":
+                ops.append("wl:" + hexs(gen_bytes(rf, rf.choice([5, 70, 100, 1500])).replace(b"\n", b"x")))
+            elif k == "f":
+                ops.append("f:-1:A%s/X" % hexs(gen_bytes(rf, rf.choice([10, 80, 1200]))))
+            elif k == "r":
+                ops.append("r:%d" % rf.choice([1, 10, 100, 5000]))
+            elif k == "RF":
+                ops.append("RF:%d" % rf.choice([1, 1, 2]))
+            elif k == "o":
+                ops.append("o:%d" % rf.below(3))
+            else:
+                ops.append("rl:%d:%d" % (rf.choice([10, 200, 4000]), rf.choice([-1, 1, 2])))
+        fcases.append("%d %d %s" % (mn, mx, " ".join(ops)))
+    fo = eng.run_impl(fcases)
+    nf = 0
+    for c, i in zip(fcases, fo):
+        nf += 1
+        pr = "implementation fault: " + i if i.startswith(("CRASH", "HANG")) else "; ".join(judge_history(c, i)[:3])
+        if pr:
+            bad += 1
+            ctx.violation("input", case=c, expected="the plain FIFO (a growth step that cannot allocate leaves the buffer as it was)", observed=i[:500], engine="cbuf", detail=pr)
+            if bad >= 8:
+                break
+    opdist["alloc_fault_histories"] = nf
     have_input = any(v["kind"] != "no-failing-input-found" for v in ctx.violations)
     vlib.report_proof_break(ctx, have_input)
     cov = vlib.proof_coverage(ctx, {
